@@ -62,11 +62,19 @@ def micro_c04_scenario(index: int, r) -> Dict[str, Any]:
     if kind in ("stop", "stop_limit"):
         order["stop"] = _s(px["stop"])
     tail = gen.gen_bars(r, r.randint(0, 2), qp, px["close"], [D(1000)], t0=2, step_choices=(1,))
+    if r.random() < 0.25 and px["high"] - px["low"] >= unit(qp):
+        # feeds quote finer than the pair's price grid: the decisive bar stops a fraction of a tick short of the
+        # prices it ties with in this ordering (a limit or stop equal to the bar's extreme is then *not* reached)
+        d = unit(qp) * D(r.choice(["0.4", "0.25", "0.49"]))
+        px = dict(px, high=px["high"] - d, low=px["low"] + d)
+        px["open"] = min(max(px["open"], px["low"]), px["high"])
+        px["close"] = min(max(px["close"], px["low"]), px["high"])
     bars = [[1, _s(pre), _s(pre), _s(pre), _s(pre), "1000"],
             [2, _s(px["open"]), _s(px["high"]), _s(px["low"]), _s(px["close"]), "1000"]] + tail
     fee = None if r.random() < 0.6 else {"pct": r.choice(["0.1", "1.5"]), "min": r.choice(["0", "0.01"])}
     base_fee = r.choice(["0.1", "1"]) if fee is None and r.random() < 0.25 else None
-    return {"class": "micro_c04", "base_fee_pct": base_fee, "symbols": {"BTC": bp, "USD": qp}, "pairs": [["BTC", "USD"]],
+    bars2 = gen.second_feed({"BTC/USD": bars}, "BTC/USD") if r.random() < 0.2 else None
+    return {"class": "micro_c04", "base_fee_pct": base_fee, "bars2": bars2, "symbols": {"BTC": bp, "USD": qp}, "pairs": [["BTC", "USD"]],
             "explicit_pair_info": [0] if r.random() < 0.5 else [], "fee": fee, "liq": None, "lend": None,
             "max_concurrent": r.choice([1, 50]), "bars": {"BTC/USD": bars},
             "init": {"USD": "1000000000", "BTC": "1000000"}, "actions": {"BTC/USD@1": [order]},
